@@ -608,7 +608,7 @@ func init() {
 			n, fails := bigImportDeviations(true, false)
 			r.States += n
 			r.Transitions += n
-			r.Extra["multi_batch_import"] = map[string]any{"leaves": 6000, "failing_batch_writes_enumerated": n}
+			r.Extra["multi_batch_import"] = map[string]any{"leaves": bigImportLeaves, "failing_batch_writes_enumerated": n}
 			for _, f := range fails {
 				if id := c.KF.MatchRaw(c.ID, f); id != "" {
 					c.KF.NoteRaw(id, f)
